@@ -170,7 +170,7 @@ func simC19Walk(c *Ctx) {
 	c.Event("value %s (%d nodes)", d, len(nodes))
 	c.AddShape(fmt.Sprintf("t=%s nodes=%d", d.T, len(nodes)))
 	rootFP := fp(root)
-	mode := c.G(8)
+	mode := c.G(10)
 
 	// which nodes the model expects to be visited, given pruning
 	prune := map[int]bool{}
@@ -267,7 +267,7 @@ func simC19Walk(c *Ctx) {
 
 	// ---- Transform
 	switch mode {
-	case 3, 4: // replace one member
+	case 3, 4, 8: // replace one member (8: from the Enter side, before the member is traversed)
 		ri := c.F(len(nodes))
 		n := nodes[ri]
 		o := GenOpts{Marks: !n.underSet && !n.inSet, Unknown: true, Null: true, Refine: true, MaxLen: 2}
@@ -303,6 +303,10 @@ func simC19Walk(c *Ctx) {
 		if mode == 3 {
 			res, terr = cty.Transform(root, cb)
 			c.API("Transform")
+		} else if mode == 8 {
+			res, terr = cty.TransformWithTransformer(root, &c19Transformer{enter: cb})
+			c.API("TransformWithTransformer")
+			c.Probe("c19.replace-on-enter")
 		} else {
 			res, terr = cty.TransformWithTransformer(root, &c19Transformer{exit: cb})
 			c.API("TransformWithTransformer")
@@ -337,6 +341,27 @@ func simC19Walk(c *Ctx) {
 		c.API("Transform")
 		if terr != injected {
 			c.Fail("C19", "transform-error-lost", "transform-error-lost", "the callback failed at %s but Transform returned (%s, %v)", nodes[hi].key, safeGoString(res), terr)
+		}
+	case 9: // the Enter callback fails
+		hi := c.F(len(nodes))
+		c.Fired("cb.halt")
+		after := false
+		spy := func(side string, fail bool) func(p cty.Path, v cty.Value) (cty.Value, error) {
+			return func(p cty.Path, v cty.Value) (cty.Value, error) {
+				if after {
+					c.Fail("C19", "transform-after-error", "transform-after-error:"+side, "TransformWithTransformer called %s again after Enter had returned an error", side)
+				}
+				if fail && renderPath(p) == nodes[hi].key {
+					after = true
+					return v, injected
+				}
+				return v, nil
+			}
+		}
+		res, terr := cty.TransformWithTransformer(root, &c19Transformer{enter: spy("Enter", true), exit: spy("Exit", false)})
+		c.API("TransformWithTransformer")
+		if terr != injected {
+			c.Fail("C19", "transform-error-lost", "transform-error-lost:enter", "Enter failed at %s but TransformWithTransformer returned (%s, %v)", nodes[hi].key, safeGoString(res), terr)
 		}
 	default: // identity, with both callbacks spied
 		plainForm := mode == 6 // the plain callback form sees only the exits
@@ -567,6 +592,11 @@ func c19CheckApply(c *Ctx, p cty.Path, root cty.Value, n mnode, rootDesc *VDesc,
 	if err != nil {
 		c.Fail("C19", "apply-rejected-valid", "apply-rejected-valid:"+kindNames[n.d.T.K], "%s %#v names an existing member but Apply failed: %v\nvalue: %s", what, p, err, rootDesc)
 	}
+	c19CheckApplied(c, p, got, n, rootDesc, what)
+}
+
+// c19CheckApplied compares what the library returned for the member at p with the model's member there.
+func c19CheckApplied(c *Ctx, p cty.Path, got cty.Value, n mnode, rootDesc *VDesc, what string) {
 	observe(c, got, "Path.Apply")
 	gu, gm := got.UnmarkDeep()
 	plain := cloneDesc(n.d)
@@ -678,10 +708,85 @@ func simC19Apply(c *Ctx) {
 			curIdx = append(curIdx, o.child)
 			cur = cur.Elems[o.child]
 		}
+		if !valid && c.G(2) == 0 {
+			p = append(p, cty.GetAttrStep{Name: "beyond"}) // the invalid step is not the last one
+		}
 		c.Event("path %d: %#v valid=%t undecided=%t %s", q, p, valid, undecided, why)
+		// the same path through the library's path constructors names the same steps
+		if len(p) > 0 {
+			var p2 cty.Path
+			switch st := p[0].(type) {
+			case cty.GetAttrStep:
+				p2 = cty.GetAttrPath(st.Name)
+			case cty.IndexStep:
+				plainKey := st.Key.IsKnown() && !st.Key.IsNull() && !st.Key.IsMarked()
+				switch {
+				case !plainKey:
+					p2 = cty.IndexPath(st.Key)
+				case st.Key.Type() == cty.String && c.G(2) == 0:
+					p2 = cty.IndexStringPath(st.Key.AsString())
+				case st.Key.Type() == cty.Number && st.Key.AsBigFloat().IsInt() && st.Key.AsBigFloat().MantExp(nil) < 40 && c.G(2) == 0:
+					i64, _ := st.Key.AsBigFloat().Int64()
+					p2 = cty.IndexIntPath(int(i64))
+				default:
+					p2 = cty.IndexPath(st.Key)
+				}
+			}
+			for _, st := range p[1:] {
+				switch st := st.(type) {
+				case cty.GetAttrStep:
+					p2 = p2.GetAttr(st.Name)
+				case cty.IndexStep:
+					p2 = p2.Index(st.Key)
+				}
+			}
+			c.API("Path constructors")
+			if !p2.Equals(p) || !p.Equals(p2) || !p2.HasPrefix(p[:len(p)-1]) || len(p2) != len(p) {
+				c.Fail("C19", "path-derivation", "path-constructors", "the path built with IndexPath/GetAttrPath and Index/GetAttr is %#v, the steps given were %#v (Equals %t/%t, HasPrefix %t)", p2, p, p2.Equals(p), p.Equals(p2), p2.HasPrefix(p[:len(p)-1]))
+			}
+			if c.G(2) == 0 {
+				p = p2
+			}
+		}
 		if undecided {
 			// only no panic below a known container is promised; unknown tuples with keys are a documented trap
 			continue
+		}
+		// LastStep: the member the last step is applied to, and that step; it succeeds exactly when every
+		// step before the last names an existing member
+		{
+			prefixValid := valid || len(curIdx) == len(p)-1
+			var lv cty.Value
+			var ls cty.PathStep
+			var lerr error
+			pan := catch(func() { lv, ls, lerr = p.LastStep(root) })
+			c.API("Path.LastStep")
+			switch {
+			case pan != nil:
+				c.Fail("C19", "apply-panic", "laststep-panic", "LastStep of %#v panicked: %v\nvalue: %s", p, pan, d)
+			case len(p) == 0:
+				if lerr != nil || ls != nil || fp(lv) != fp(root) {
+					c.Fail("C19", "laststep", "laststep-empty", "LastStep of the empty path returned (%s, %#v, %v), want the value itself and no step", safeGoString(lv), ls, lerr)
+				}
+			case prefixValid:
+				if lerr != nil {
+					c.Fail("C19", "laststep", "laststep-rejected-valid", "LastStep of %#v failed with %v although every step before the last names an existing member\nvalue: %s", p, lerr, d)
+				} else {
+					parent := d
+					for _, ix := range curIdx[:len(p)-1] {
+						parent = parent.Elems[ix]
+					}
+					c19CheckApplied(c, p[:len(p)-1], lv, mnode{d: parent, idx: curIdx[:len(p)-1]}, d, "LastStep")
+					if !(cty.Path{ls}).Equals(p[len(p)-1:]) {
+						c.Fail("C19", "laststep", "laststep-step", "LastStep of %#v returned the step %#v", p, ls)
+					}
+					c.Probe("c19.laststep-valid")
+				}
+			default:
+				if lerr == nil {
+					c.Fail("C19", "apply-accepted-invalid", "laststep-accepted-invalid:"+why, "LastStep of %#v succeeded with %s although a step before the last is invalid (%s)\nvalue: %s", p, safeGoString(lv), why, d)
+				}
+			}
 		}
 		if valid {
 			n := mnode{d: cur, idx: curIdx}
